@@ -1,11 +1,11 @@
 SPECIFICATION Spec
 CONSTANTS
   Alpha = {0, 1}
-  Scope = "thorough"
-  MaxInp = 8
+  Scope = "quick"
+  MaxInp = 6
   MaxWrite = 3
   EmitOps = TRUE
-  Backward = FALSE
+  Backward = TRUE
 INVARIANT Inv
 PROPERTY Refines
 ACTION_CONSTRAINT Emit
